@@ -225,6 +225,16 @@ int main(int argc, char** argv)
 
     const double V_eff = std::sqrt(V_RF*V_RF-V0*V0);
 
+    if (!(V_eff > 0)) {
+        // no stable RF bucket: everything below (synchrotron frequency,
+        // bunch length, frequency range) would be computed from NaN or zero
+        std::stringstream vmsg;
+        vmsg << "Accelerating voltage (" << V_RF << " V) does not exceed "
+             << "the radiation loss per turn (" << V0 << " V). Will now quit.";
+        Display::printText(vmsg.str());
+        return EXIT_SUCCESS;
+    }
+
     auto fs = static_cast<double>(opts.getSyncFreq());
     auto alpha0_tmp = static_cast<double>(opts.getAlpha0());
 
